@@ -207,7 +207,7 @@ func replayOnce(b Behaviour, cfg Cfg, seed int64, dir string, res *vh.Result, co
 			}
 			for qi, rd := range st.Reads {
 				exp := w.expected(rd.R)
-				if os.Getenv("VERIF_SELFTEST") == "1" && rd.Q.Op == "get" && exp.St == "ok" && si%2 == 0 {
+				if os.Getenv("VERIF_C04_CORRUPT") == "1" && rd.Q.Op == "get" && exp.St == "ok" && si%2 == 0 {
 					exp.Items[0].Tx++ // binding self-test: one corrupted expected value must be noticed
 				}
 				got, sts := w.exec(st.X, st.N, rd.Q, snap)
